@@ -376,7 +376,13 @@ func observeImport(bin, root string, id int, jb impJob) map[string]any {
 		p2 := core.Run(core.RunOpts{Dir: dir, Timeout: 30 * time.Second}, bin, "print", "p1.knut")
 		// the importer's own output, printed again (without the opens), is itself
 		po := core.Run(core.RunOpts{Dir: dir, Timeout: 30 * time.Second}, bin, "print", "o.knut")
-		obs["fixpoint"] = p1.Exit == 0 && p1.Stdout == p2.Stdout && (ck.Exit != 0 || po.Stdout == r.Stdout || po.Exit != 0)
+		// re-printed unchanged: the printed journal ends with the importer's own text (the opens and the opening
+		// balances booked in 2000 come first), and printing is a fixpoint
+		kept := strings.HasSuffix(strings.TrimRight(p1.Stdout, "\n"), strings.TrimRight(r.Stdout, "\n"))
+		obs["fixpoint"] = p1.Exit == 0 && p1.Stdout == p2.Stdout && (ck.Exit != 0 || kept) && (ck.Exit != 0 || po.Stdout == r.Stdout || po.Exit != 0)
+		if ck.Exit == 0 && !kept {
+			cs["reprinted"] = p1.Stdout
+		}
 		if po.Exit == 0 && po.Stdout != r.Stdout {
 			cs["reprinted"] = po.Stdout
 		}
@@ -514,6 +520,16 @@ func C13(c *core.Ctx) {
 				}
 				r.Bal = bal[cur]
 				rows = append(rows, r)
+			}
+			if len(rows) >= 2 && len(im.Kinds) == 0 && rng.Intn(6) == 0 {
+				// two rows of one day whose free texts differ only in a character next to a double quote (the
+				// order of a day's transactions depends on the descriptions)
+				a := rng.Intn(len(rows) - 1)
+				pair := [][2]string{{"cmp \"z", "cmp #z"}, {"cmp $", "cmp \""}, {"q\"", "q'"}, {"q' x", "q\" x"}}[rng.Intn(4)]
+				if !im.Bals && !im.Finals {
+					rows[a+1].Z = rows[a].Z
+				}
+				rows[a].Text, rows[a+1].Text = pair[0], pair[1]
 			}
 			jb := impJob{im: im, rows: rows, start: start, endZ: z + rng.Intn(3)}
 			var cs []string
